@@ -95,17 +95,30 @@ IJ = 'serif.table.Table.inner_join'
 represent(IJ, right_index='symdict', duplicates='symdict', left_keys_seen='symset:key', result_data='list_of_symlist')
 
 
-@contract('serif.table.Table._validate_join_keys', props=[])
+@contract('serif.table.Table._validate_join_keys', props=['C09', 'C10', 'C11'])
 class validate_join_keys:
-    """Assumed at call sites (bounded under C09): for key specs given as Vectors of the tables'
-    lengths it returns the one pair (left key, right key); malformed specs raise."""
-    params = {'self': 'opaque', 'other': 'opaque', 'left_on': 'opaque', 'right_on': 'opaque'}
-    trusted = True
+    """Key specs given as two Vectors: on a normal return the result is exactly the one pair
+    (left key, right key) - the vectors themselves, never table columns of the same name - and a
+    key whose length differs from its table's row count is rejected (so the join loops may index
+    the key columns by row number).  Name specs (strings) and lists of specs are bounded (C09)."""
+    params = {'self': 'table1', 'other': 'table1', 'left_on': 'alt:dvector|listof:2:dvector', 'right_on': 'alt:dvector|listof:2:dvector'}
     from serif.errors import SerifTypeError as _T, SerifKeyError as _K
     may_raise = [SerifValueError, _T, _K]
 
+    def requires(self, other, left_on, right_on):
+        return S.rect(self) and S.rect(other) and all(S.truthful(v) for v in _as_list(left_on)) and all(S.truthful(v) for v in _as_list(right_on))
+
     def returns(left_on, right_on):
-        return [(left_on, right_on)]
+        return list(zip(_as_list(left_on), _as_list(right_on)))
+
+    def ensures(self, other, left_on, right_on, result):
+        return len(_as_list(left_on)) == len(_as_list(right_on)) and \
+            all(len(v._underlying) == self._length for v in _as_list(left_on)) and \
+            all(len(v._underlying) == other._length for v in _as_list(right_on))
+
+
+def _as_list(spec):
+    return spec if isinstance(spec, list) else [spec]
 
 
 @contract('serif.table.Table._validate_key_tuple_hashable', props=[])
@@ -168,8 +181,9 @@ class inner_join_index:
     quant_prune = False
 
     def requires(self, other, left_on, right_on):
-        return S.rect(self) and S.rect(other) and S.truthful(right_on) and S.truthful(left_on) and \
-            len(right_on._underlying) == other._length and len(left_on._underlying) == self._length
+        # (that the key vectors are as long as their tables is NOT assumed: a longer or shorter key
+        # is rejected by _validate_join_keys, whose contract is discharged)
+        return S.rect(self) and S.rect(other) and all(S.truthful(v) for v in _as_list(right_on)) and all(S.truthful(v) for v in _as_list(left_on))
 
 
 # ------------------------------------------------------------------ inner_join probe / emit loops
@@ -269,9 +283,9 @@ class _ProbeBase:
 
 
 def _probe_pre(self, other, left_on, right_on):
-    return S.rect(self) and S.rect(other) and S.truthful(right_on) and S.truthful(left_on) and \
-        all(S.truthful(c) for c in self._underlying) and all(S.truthful(c) for c in other._underlying) and \
-        len(right_on._underlying) == other._length and len(left_on._underlying) == self._length
+    return S.rect(self) and S.rect(other) and all(S.truthful(v) for v in _as_list(right_on)) and \
+        all(S.truthful(v) for v in _as_list(left_on)) and \
+        all(S.truthful(c) for c in self._underlying) and all(S.truthful(c) for c in other._underlying)
 
 
 @contract(IJ, props=['C09', 'C11'], variant='probe-many_to_many')
@@ -681,3 +695,76 @@ class full_join_wrap(_FJProbeBase):
 
     def requires(self, other, left_on, right_on, expect):
         return _probe_pre(self, other, left_on, right_on) and expect == 'many_to_many'
+
+
+# =================================================================== two key columns per side (thorough tier)
+_P2 = {'self': 'table1', 'other': 'table1', 'left_on': 'listof:2:dvector', 'right_on': 'listof:2:dvector', 'expect': 'str'}
+
+
+@contract(IJ, props=['C09', 'C11'], variant='index-build-2keys')
+class inner_join_index_2(inner_join_index):
+    """C09/C11 (index build, TWO key columns per side): as `index-build` with key tuples of two
+    components."""
+    params = _P2
+    tier = 'thorough'
+
+
+@contract(IJ, props=['C09', 'C11'], variant='probe-2keys-many_to_many')
+class inner_join_probe_2mm(_ProbeBase):
+    """C09 (probe / emit loops, TWO key columns per side, expect='many_to_many')."""
+    params = _P2
+    tier = 'thorough'
+
+    def requires(self, other, left_on, right_on, expect):
+        return _probe_pre(self, other, left_on, right_on) and expect == 'many_to_many'
+
+
+@contract(IJ, props=['C09', 'C11'], variant='probe-2keys-one_to_one')
+class inner_join_probe_211(_ProbeBase):
+    """C09/C11 (probe / emit loops, TWO key columns per side, expect='one_to_one')."""
+    params = _P2
+    tier = 'thorough'
+
+    def requires(self, other, left_on, right_on, expect):
+        return _probe_pre(self, other, left_on, right_on) and expect == 'one_to_one'
+
+
+@contract(LJ, props=['C10', 'C11'], variant='index-build-2keys')
+class join_index_2(join_index):
+    """C10/C11 (left join, index build, TWO key columns per side)."""
+    params = _P2
+    tier = 'thorough'
+
+
+@contract(LJ, props=['C10', 'C11'], variant='probe-2keys-many_to_many')
+class join_probe_2mm(_LJProbeBase):
+    """C10 (left join, probe / emit loops, TWO key columns per side, expect='many_to_many')."""
+    params = _P2
+    tier = 'thorough'
+
+    def requires(self, other, left_on, right_on, expect):
+        return _probe_pre(self, other, left_on, right_on) and expect == 'many_to_many'
+
+
+@contract(FJ, props=['C10', 'C11'], variant='index-build-2keys')
+class full_join_index_2(full_join_index):
+    """C10/C11 (full join, index build, TWO key columns per side)."""
+    params = _P2
+    tier = 'thorough'
+
+
+@contract(FJ, props=['C10', 'C11'], variant='probe-2keys-many_to_many')
+class full_join_probe_2mm(_FJProbeBase):
+    """C10 (full join, left phase, TWO key columns per side, expect='many_to_many')."""
+    params = _P2
+    tier = 'thorough'
+
+    def requires(self, other, left_on, right_on, expect):
+        return _probe_pre(self, other, left_on, right_on) and expect == 'many_to_many'
+
+
+@contract(FJ, props=['C10'], variant='tail-2keys')
+class full_join_tail_2(full_join_tail):
+    """C10 (full join, third phase, TWO key columns per side)."""
+    params = _P2
+    tier = 'thorough'
